@@ -179,7 +179,14 @@ def judge_call(b, svc, method, cmd, obs):
                 rlocs[mp["attr"]] = "header"
             for mp in r0.get("cookies") or []:
                 rlocs[mp["attr"]] = "cookie"
-        if obs.get("client_error"):
+        # an array carried in a response header: the generated server joins the elements into ONE value ("a, b"), the generated client
+        # reads one element per header VALUE and does not split: only arrays of exactly one element survive
+        joined = [k for k, v in (cmd["script"].get("result") or {}).items() if rlocs.get(k) == "header" and isinstance(v, list) and len(v) != 1] \
+            if isinstance(cmd["script"].get("result"), dict) else []
+        if joined and obs.get("client_error"):
+            out.append(("response/header/array-written-as-one-joined-value", "%s: result attribute %s = %r travels in a response header as one comma-joined "
+                        "value, the client reads one element per header value: %s" % (name, joined[0], cmd["script"]["result"][joined[0]], obs["client_error"].get("message", "")[:160])))
+        elif obs.get("client_error"):
             msg = obs["client_error"].get("message", "")
             mm = re.search(r'"(\w+)" is missing from (header|cookie)', msg)
             sent_v = (cmd["script"]["result"] or {}).get(mm.group(1)) if mm and isinstance(want, dict) else None
@@ -211,6 +218,10 @@ def judge_call(b, svc, method, cmd, obs):
                     out.append(("response/defaulted-zero-arrives-as-default", "%s: result attribute %s returned as %r seen by the client as %r" % (name, show(path), s, g)))
                     continue
                 top = path.strip(SEP).split(SEP)[0]
+                if top in joined:
+                    out.append(("response/header/array-written-as-one-joined-value", "%s: result attribute %s = %r travels in a response header as one comma-joined "
+                                "value, the client sees %r" % (name, top, cmd["script"]["result"][top], (obs.get("client_result") or {}).get(top))))
+                    continue
                 if rlocs.get(top) == "cookie" and isinstance(s, str) and not COOKIE_OCTET.match(s):
                     out.append(("response/cookie/value-outside-cookie-octets",
                                 "%s: result attribute %s = %r carried in a response cookie is dropped or altered by net/http's cookie sanitiser" % (name, show(path), s)))
@@ -298,6 +309,8 @@ def run_shared(c, prop):
     builds += e2e.build_many(c.seed, range(na), lambda i: ["-alias-design"], work)
     c.cov["rule"] += " Then 8 designs around the type Any (whole payload / result, array element, map value, attribute, query parameter, response header)."
     builds += e2e.build_many(c.seed, range(8), lambda i: ["-any-design"], work)
+    # the solo table: methods whose payload (and result) is ONE attribute
+    builds += e2e.build_many(c.seed, range(4 if c.tier == "quick" else 12), lambda i: ["-solo-design"], work)
     builds += e2e.build_many(c.seed, range(n), lambda i: ["-errors"] if i % 3 == 1 else [], work)
     transport_ops = []
     for b in builds:
